@@ -285,7 +285,8 @@ def buck4_cases(cases, fail):
             else:
                 cs = a if q["piece"] == "quintic" else b
                 terms = [cs[k] * x ** k for k in range(len(cs))]
-                want, scale = float(sum(terms)), float(sum(abs(t) for t in terms))
+                # size of the problem the polynomial solves: its own terms and the end-point data it was fitted to
+                want, scale = float(sum(terms)), float(sum(abs(t) for t in terms)) + float(max(abs(v) for v in named.values()))
             for route, f in impls.items():
                 n += 1
                 try:
@@ -316,12 +317,13 @@ def run_forms(run, want):
                        "bornmayer / buck / morse / exp_spline / sqrt: exact special points and exact algebraic / differential relations, not an independent evaluation of exp()",
                        "documented signatures are transcribed from docs/reference/potential_forms.rst into spec/Builtin.tla"]
     try:
-        res = tlc.run("Builtin", "Builtin.cfg", env={"EMIT": "1"}, coverage=True, keep=True, timeout=900)
+        cfg = "Builtin_thorough.cfg" if run.tier == "thorough" else "Builtin.cfg"
+        res = tlc.run("Builtin", cfg, env={"EMIT": "1"}, coverage=True, keep=True, timeout=900)
         try:
             if res.violated:
                 run.machinery("TLC: %s violated\n%s" % (res.violated, res.stdout[-1500:]))
             else:
-                run.add_tlc("Builtin", res)
+                run.add_tlc(cfg[:-4], res)
                 exact = tlc.read_ndjson(os.path.join(res.outdir, "exact.ndjson"))
                 special = tlc.read_ndjson(os.path.join(res.outdir, "special.ndjson"))
                 sig = tlc.read_ndjson(os.path.join(res.outdir, "sig.ndjson"))[0]
